@@ -38,7 +38,39 @@ func (u *unsupported) Error() string {
 //	untyped an untyped numeric constant (carries its value)
 type Kind struct {
 	Base  string
-	Named *Named // the named type, when there is one (method lookup, estr tables)
+	Named *Named  // the named type, when there is one (method lookup, estr tables)
+	Elem  *Kind   // slice, set: the element kind
+	Rec   *Record // record: the tuple layout
+	Fn    *FnType // func: parameter and result kinds (function-typed parameters, oracles)
+	Len   int     // bytes: the array length
+}
+
+// Second tier (loops over slices):
+//
+//	slice  []T                                            list T
+//	set    mapset.Set[T], T of an N-valued kind            list T, membership only (NewSet, Add, Contains)
+//	record struct type listed in the table's Records       tuple of the listed field paths (+ an abstract identity)
+//	ord    values that are only compared / moved (table)   N, no arithmetic
+//	bytes  [n]byte                                        list N of length n
+//	unit   the value of a function that only returns error tt
+//	tparam a type parameter                               a Gallina type variable
+//	func   a function-typed parameter or an oracle        a Gallina function
+//	drop / ignore / oracle: parameters that are not values (context, loggers, interface carriers)
+type Record struct {
+	Name   string
+	Fields []RecField
+	Opaque bool // a last component N stands for everything the code does not look at
+}
+
+type RecField struct {
+	Path string
+	K    Kind
+}
+
+type FnType struct {
+	Args []Kind
+	Res  Kind
+	Wrap bool // result in the res monad
 }
 
 type Named struct {
@@ -47,15 +79,57 @@ type Named struct {
 }
 
 func (k Kind) String() string {
-	if k.Named != nil && (k.Base == "estr" || k.Base == "struct") {
-		return k.Base + ":" + k.Named.Pkg.Name + "." + k.Named.Name
+	switch k.Base {
+	case "estr", "struct":
+		if k.Named != nil {
+			return k.Base + ":" + k.Named.Pkg.Name + "." + k.Named.Name
+		}
+	case "slice", "set":
+		return k.Base + " " + k.Elem.String()
+	case "record":
+		return "record:" + k.Rec.Name
 	}
 	return k.Base
 }
 
+// short is the spelling used in the table's Params / Result columns.
+func (k Kind) short() string {
+	switch k.Base {
+	case "slice", "set":
+		return k.Base + " " + k.Elem.short()
+	case "record":
+		return "record:" + k.Rec.Name
+	}
+	return k.Base
+}
+
+func (r *Record) width() int {
+	n := len(r.Fields)
+	if r.Opaque {
+		n++
+	}
+	return n
+}
+
+// proj is the projection of component i out of the left-nested tuple v = (((c0, c1), c2), ...).
+func (r *Record) proj(i int, v string) string {
+	n := r.width()
+	if n == 1 {
+		return v
+	}
+	s := v
+	for k := 0; k < n-1-i; k++ {
+		s = "(fst " + s + ")"
+	}
+	if i > 0 {
+		s = "(snd " + s + ")"
+	}
+	return s
+}
+
 func (k Kind) coqType() string {
 	switch k.Base {
-	case "u64", "estr":
+	case "u64", "estr", "ord":
 		return "N"
 	case "int", "big":
 		return "Z"
@@ -65,6 +139,36 @@ func (k Kind) coqType() string {
 		return "bool"
 	case "range":
 		return "(N * N)"
+	case "slice", "set":
+		return "(list " + k.Elem.coqType() + ")"
+	case "bytes":
+		return "(list N)"
+	case "unit":
+		return "unit"
+	case "tparam":
+		return k.Named.Name
+	case "record":
+		var parts []string
+		for _, f := range k.Rec.Fields {
+			parts = append(parts, f.K.coqType())
+		}
+		if k.Rec.Opaque {
+			parts = append(parts, "N")
+		}
+		if len(parts) == 1 {
+			return parts[0]
+		}
+		return "(" + strings.Join(parts, " * ") + ")"
+	case "func":
+		s := ""
+		for _, a := range k.Fn.Args {
+			s += a.coqType() + " -> "
+		}
+		r := k.Fn.Res.coqType()
+		if k.Fn.Wrap {
+			r = "res " + r
+		}
+		return "(" + s + r + ")"
 	}
 	return "UNSUPPORTED_" + k.Base
 }
@@ -73,8 +177,15 @@ func sameKind(a, b Kind) bool {
 	if a.Base != b.Base {
 		return false
 	}
-	if a.Base == "estr" || a.Base == "struct" {
+	switch a.Base {
+	case "estr", "struct", "tparam":
 		return a.Named != nil && b.Named != nil && a.Named.Pkg == b.Named.Pkg && a.Named.Name == b.Named.Name
+	case "slice", "set":
+		return sameKind(*a.Elem, *b.Elem)
+	case "record":
+		return a.Rec.Name == b.Rec.Name
+	case "bytes":
+		return a.Len == b.Len
 	}
 	return true
 }
